@@ -167,8 +167,8 @@ func c09Sched(nChecks int) func(c *sim.Case) {
 		c.Logf("schedule: %s", strings.Join(s.trace, " "))
 		// the logout answer
 		lr := logout.resp
-		if lr.Panic != nil || !lr.IsRedirect() || !strings.HasPrefix(lr.Location(), w.Cfg.GetLogout().GetRedirectUri()) {
-			c.Violation("logout-answer", "logout answered %v, want a redirect to %s", lr, w.Cfg.GetLogout().GetRedirectUri())
+		if lr.Panic != nil || !lr.IsRedirect() || lr.Location() != w.ExpectLogoutURI {
+			c.Violation("logout-answer", "logout answered %v, want a redirect to %s", lr, w.ExpectLogoutURI)
 		}
 		tL := logout.doneAt
 		// probe: the same cookie, alone, after everything
@@ -252,7 +252,8 @@ func (m *c09Mon) after(h *H, s *step) {
 	if s.Kind == "logout" {
 		removeFailed := false
 		for _, sc := range s.Store {
-			if sc.Op == "RemoveSession" && sc.Err != nil {
+			// the removal failed if the store said so, or if a fault was injected into it (whatever the store reported)
+			if sc.Op == "RemoveSession" && (sc.Err != nil || sc.Fault != "") {
 				removeFailed = true
 			}
 		}
@@ -264,8 +265,8 @@ func (m *c09Mon) after(h *H, s *step) {
 			}
 		case s.R.Panic != nil || s.R.Err != nil:
 		default:
-			if !s.R.IsRedirect() || !strings.HasPrefix(s.R.Location(), w.Cfg.GetLogout().GetRedirectUri()) || w.Cfg.GetLogout().GetRedirectUri() == "" {
-				c.Violation("logout-answer", "step #%d: logout answered %v, want a redirect to the end-session URI %q", s.N, s.R, w.Cfg.GetLogout().GetRedirectUri())
+			if !s.R.IsRedirect() || s.R.Location() != w.ExpectLogoutURI {
+				c.Violation("logout-answer", "step #%d: logout answered %v (Location %q), want a redirect to the configured-or-discovered end-session URI %q", s.N, s.R, s.R.Location(), w.ExpectLogoutURI)
 			}
 			expired := false
 			for _, sc := range s.R.SetCookies() {
